@@ -8,6 +8,7 @@
 -/
 import JP.Lemmas.Query
 import JP.Lemmas.LexStr
+import JP.Lemmas.RfcSpell
 namespace JP.Props.C01
 open JP JP.Query JP.Lemmas
 
@@ -76,7 +77,31 @@ theorem dot_shorthand (cfg : Lex.Cfg) (c : Char) (cs rest : Str) (hc : Lex.keySt
     Lex.firstMatch (Lex.rules cfg) ('.' :: c :: cs ++ rest) = some ([⟨.prop, c :: cs⟩], rest) :=
   Lemmas.dot_shorthand_lexes cfg c cs rest hc hcs hrest
 
+/-- **Every RFC 9535 spelling of a filter-free query compiles to that query.** `RfcSpell.QuerySpell segs text`
+    is the RFC grammar (sections 2.1-2.5, written from the ABNF in `JP/RfcSpell.lean`): `$`, then segments in dot,
+    bracket or descendant notation, names in either quote style with any mix of literal characters and escapes,
+    canonical integers, slices with any parts omitted, wildcards, and blanks wherever the grammar allows `S`.
+    The composed model of compile (character-level lexer, literal decoding, parser) returns exactly `segs` — so all
+    spellings of one query are the same compiled query, and (with `query_refines_rfc`) select the RFC's nodelist. -/
+theorem any_spelling_compiles (pr : Surface.Prec) (hpr : Surface.precOK pr = true) (uw : Char → Bool) (segs : List Seg) (text : Str)
+    (h : RfcSpell.QuerySpell segs text) :
+    Lex.compileText pr ⟨Lex.dflt, uw⟩ text = some ⟨segs, false⟩ :=
+  Lemmas.rfc_spelling_compiles pr hpr uw segs text h
+
+/-- two spellings of the same query are the same compiled query -/
+theorem spellings_agree (pr : Surface.Prec) (hpr : Surface.precOK pr = true) (uw : Char → Bool) (segs : List Seg) (t1 t2 : Str)
+    (h1 : RfcSpell.QuerySpell segs t1) (h2 : RfcSpell.QuerySpell segs t2) :
+    Lex.compileText pr ⟨Lex.dflt, uw⟩ t1 = Lex.compileText pr ⟨Lex.dflt, uw⟩ t2 := by
+  rw [Lemmas.rfc_spelling_compiles pr hpr uw segs t1 h1, Lemmas.rfc_spelling_compiles pr hpr uw segs t2 h2]
+
 /-! ### Non-vacuity -/
+/-- `$ .a['b'][ 1 ]` spells the query with segments a, b, 1 -/
+example : RfcSpell.QuerySpell [.child [.name ['a']], .child [.name ['b']], .child [.index 1]] "$ .a['b'][ 1 ]".toList :=
+  ⟨" .a['b'][ 1 ]".toList, [], by
+    refine ⟨?_, rfl, rfl⟩
+    exact .dot (.child [.name ['a']]) ['a'] [' '] (.name ['a'] (by decide)) (by intro _ _; decide) (by decide) _ _
+      (.bracket [.name ['b']] "'b'".toList [] [] [] (.one _ _ (.nameSQ ['b'] ['b'] (.cons (.unescaped 'b' (by decide)) .nil))) (by decide) (by decide) (by decide) _ _
+        (.bracket [.index 1] ['1'] [] [' '] [' '] (.one _ _ (.index 1)) (by decide) (by decide) (by decide) _ _ .nil))⟩
 example : Lex.Spells '\'' ['a', '\'', 'é'] ['a', '\\', '\'', '\\', 'u', '0', '0', 'E', '9'] :=
   .cons (.unescaped 'a' (by decide)) (.cons .quote (.cons (.hex 'é' '0' '0' 'E' '9' (by decide) (by decide)) .nil))
 
